@@ -123,7 +123,26 @@ def pick_step(src, n, steps=STEPS):
 @rigged
 def step(src, n=2, peer_views='abstract', steps=STEPS, fsm_states=FC.FSM, sync=FC.SYNC_CHOICES):
     st, ev_from = pick_step(src, n, steps)
-    core, sit = FC.build(src, n=n, peer_views=peer_views, fsm_states=fsm_states, blank_peer=ev_from, sync=sync)
+
+    crashed = []
+
+    def crashed_program(core, ids):
+        # an application in failure that the Master will try again when it enters DISTRIBUTION: its program has really
+        # crashed, nobody can take it, and its running failure strategy ends Supvisors - the request comes
+        # back synchronously while the DISTRIBUTION state is being entered
+        from supvisors.ttypes import RunningFailureStrategies as RFS
+        from supervisor.states import ProcessStates
+        mode = src.pick('crashed_program_that_nobody_can_take', [None, 'SHUTDOWN', 'RESTART'])
+        crashed.append(mode)
+        if mode:
+            proc = core.add_process(ids[0], 'fapp', 'gone', ProcessStates.STOPPED)
+            adapter.set_rules(core.context.applications['fapp'].rules, managed=True, start_sequence=1)
+            # (its identifiers rule only permits an instance that does not know the program)
+            adapter.set_rules(proc.rules, start_sequence=1, required=True, running_failure_strategy=RFS[mode],
+                              identifiers=[ids[1]])
+            core.process_event(ids[0], 'fapp', 'gone', ProcessStates.FATAL, expected=False, spawnerr='crash')
+    core, sit = FC.build(src, n=n, peer_views=peer_views, fsm_states=fsm_states, blank_peer=ev_from, sync=sync,
+                         pre_hook=crashed_program if st == 'tick' and n == 2 else None)
     sit.update(step=st, ev_from=ev_from, peer_views=peer_views)
     if st == 'state_event':
         # the listener only hands over what Context.is_valid admits: nothing from an ISOLATED origin (C13)
@@ -135,6 +154,8 @@ def step(src, n=2, peer_views='abstract', steps=STEPS, fsm_states=FC.FSM, sync=F
         src.assume(sit['ist'][0] == S.RUNNING)
     do_step(src, core, sit, steps)
     trace = check_graph(src, core, sit)
+    if crashed and crashed[0] and sit['fsm'] == 'ELECTION' and len(trace) > 2:
+        src.reach('strategy-applied-while-entering-distribution')
     check_invariant(src, core, sit)
     src.reach('moved' if len(trace) > 1 else 'stayed')
     src.check('final-is-terminal', sit['fsm'] != 'FINAL' or trace == ['FINAL'])
